@@ -27,25 +27,37 @@ CHECKS = {
              'functions and the user classes is unchanged, and afterwards a '
              'battery of 31 calls (incl. yaml.safe_load/safe_dump probes, '
              'cross-class-set calls and "each function builds its own '
-             'classes") equals the fresh-function baseline. '
-             'Thread schedules are NOT covered.',
+             'classes") equals the fresh-function baseline. The snapshot '
+             'includes module-level containers and mutable default arguments '
+             'of yatiml. Two operations interleaved: operation A suspended '
+             'at its k-th call-back into user code (hooks, constructors, '
+             'read()/write() of a source or sink) or at its k-th log call '
+             '(a logging handler; every 6th point in the quick tier), a '
+             'whole operation B (also on the same function objects) runs, A '
+             'resumes: no transient write to shared state, both results as '
+             'alone. Pre-emption between bytecodes that no call-back or log '
+             'call separates is NOT covered.',
         design='4/C11',
         note='Trusted base: CPython, CrossHair, z3; per path everything is '
-             'concrete (the solver chooses the history). Concurrent calls '
-             'from threads are outside the claim: the engine has no '
-             'interleaving model; the frame condition is the argument '
-             'offered for them, not a solver verdict.'),
+             'concrete (the solver chooses the history, the suspended '
+             'operation, the pre-emption point and the operation run in '
+             'between). Of thread schedules only those are decided in which '
+             'the other thread runs a whole operation at a call-back or log '
+             'call of the suspended one; finer pre-emption is outside the '
+             'claim.'),
     'C17': dict(
         text='Bounded model checking of the error-reporting path (real '
              'message builders and difflib, one concrete line per node): a '
              'valid document of 10 class models with one solver-chosen '
              'corruption at any node (wrong scalar type, misspelt key, '
-             'dropped required key, added key, unknown enum member) must '
+             'dropped required key, added key, unknown enum member also '
+             'spelt like a boolean) must '
              'raise RecognitionError citing only lines inside the document, '
              'among them the line of the corrupted node, its key or an '
              'enclosing mapping, and quoting the unknown/missing key; every '
              'RecognitionError of the single-mutation document space and of '
-             'the empty document cites a position inside the document.',
+             'the empty document cites a position inside the document '
+             '(incl. a model where a value matches two sibling subclasses).',
         design='4/C17'),
     'C10': dict(
         text='Bounded model checking of the hook calling protocol: for all '
@@ -56,7 +68,9 @@ CHECKS = {
              'equals the base-first own-body hooks of the registered chain, '
              'each once, before the constructor; recognisers are called only '
              'with their defining class; SeasoningError (with or without a '
-             'message) becomes RecognitionError.',
+             'message) becomes RecognitionError. The same for classes written '
+             'as scalars (UserString and Enum hierarchies) for savorize and '
+             'sweeten.',
         design='4/C10'),
     'C12': dict(
         text='Bounded end-to-end symbolic execution of the generated load, '
@@ -65,13 +79,18 @@ CHECKS = {
              'Path, a text stream and open files with their own encodings '
              'equals the dumps variant for the same '
              'options; str, Path, text stream and binary stream (UTF-8, BOM, '
-             'UTF-16) sources give equal results or the same error class. '
+             'UTF-16) sources give equal results or the same error class; a '
+             'value the string variant refuses is refused by every sink '
+             'variant. '
              'The thinnest claim of the set: per path everything is '
              'concrete.',
         design='4/C12'),
     'C06': dict(
         text='Bounded end-to-end symbolic execution of the public dumps '
-             'function on solver-chosen values of 16 class models: purity '
+             'function on solver-chosen values of 23 class models (incl. '
+             'node-replacing sweeten with repeated objects, scalars set '
+             'through the Node helpers, structural transforms on shared '
+             'items): purity '
              '(structural snapshot), determinism (also of the JSON flavour '
              'around a refused dump), exactly one well-formed '
              'document, no explicit tag on any node (PyYAML parse events), '
@@ -155,7 +174,11 @@ CHECKS = {
              'which j IS node i (what an alias composes to) must load exactly '
              'like the document with a copy of i at j, or both must fail; 9 '
              'self-referential shapes x 7 document types must be rejected '
-             'with an error other than RecursionError.',
+             'with an error other than RecursionError. Also: two aliases '
+             '(incl. an alias inside an aliased collection) on small and '
+             'nested models against a deep copy; the aliased document read '
+             'through yaml.load_all (Loader.get_node); one node with up to '
+             '256 aliases as real text.',
         design='4/C18'),
     'C04': dict(
         text='Same symbolic document space as C01 on models with Any / '
@@ -216,7 +239,10 @@ CHECKS = {
              'up to length 3 (thorough 5) over the number alphabet and case '
              'variants of boolean/number look-alikes (incl. non-ASCII '
              'digits), each also at positions typed bool/float/int/str/'
-             'List[float], which must agree with the resolver.',
+             'List[float] and at positions where classes meet scalars (a '
+             'string-like class next to float, an enum and a bool at one key '
+             'in two candidates, hooks reading the scalar with get_value / '
+             'require_attribute_value), which must agree with the resolver.',
         design='4/C09',
         technique='SMT (z3 string/regex theory) over the real resolver '
                   'tables, unbounded in string length; CrossHair bounded '
